@@ -7,7 +7,7 @@ for d in $dirs; do
   checks=$(python3 -c "import json;print(' '.join(json.load(open('$d/meta.json'))['caught_by']))")
   wt=$(mktemp -d /tmp/wt-reg-XXXXXX); rmdir "$wt"
   git -C /repo worktree add --detach "$wt" HEAD -q || { echo "$d WORKTREE-FAILED"; continue; }
-  if git -C "$wt" apply "$d/patch.diff" 2>/dev/null; then
+  if git -C "$wt" apply "$PWD/$d/patch.diff" 2>/dev/null; then
     res=""; ok=0
     for p in $checks; do
       VERIF_REPO="$wt" timeout 1500 ./check "$p" --tier quick --no-shrink >/dev/null 2>&1; rc=$?
